@@ -81,9 +81,11 @@ def run(case):
     elif mode == "ufunc.reduce":
         a = attempt(lambda: f_np.reduce(ra, axis=-1))
     elif mode == "keepdims":
-        a = attempt(lambda: getattr(ra, name)(axis=-1, keepdims=True))
+        kd = {0: True, 1: np.True_, 2: 1}[len(case["vals"]) % 3]      # any true value asks for the column form, as in numpy
+        a = attempt(lambda: getattr(ra, name)(axis=-1, keepdims=kd))
     elif mode == "np-keepdims":
-        a = attempt(lambda: f_np(ra, axis=-1, keepdims=True))
+        kd = {0: True, 1: np.bool_(1)}[len(case["vals"]) % 2]
+        a = attempt(lambda: f_np(ra, axis=-1, keepdims=kd))
     elif mode == "ufunc-keepdims":
         a = attempt(lambda: f_np.reduce(ra, axis=-1, keepdims=True))
     else:
